@@ -484,8 +484,53 @@ def r10(ctx):
     ctx.floor(R, 3)
 
 
+def r11(ctx, R="C12-R11"):
+    ctx.rule(R, "configuration reaches the parameter of its own name: at every call inside crate turmoil whose callee has a parameter named "
+                "like a field of turmoil::config::Config (tcp_capacity, udp_capacity, ephemeral_ports, ..), the argument in that position is "
+                "read from that field and not from the field that names another parameter of the same callee - two same-typed knobs swapped at a constructor call compile and bound "
+                "the accept queue by the UDP capacity")
+    CF = "field:turmoil::config::Config::"
+    n = 0
+    for b in sorted(ctx.w.bodies.values(), key=lambda x: x.id):
+        if b.crate != "turmoil":
+            continue
+        cnt = {}
+        for bb, t in b.calls():
+            cb = ctx.w.bodies.get(t["f"])
+            if not cb or cb.crate != "turmoil" or len(t["args"]) != cb.argc:
+                continue
+            for i, a in enumerate(t["args"]):
+                pn = cb.locals[i + 1].get("n")
+                if not pn:
+                    continue
+                got = {x[len(CF):] for x in Slicer(ctx.w).atoms(b, a) if x.startswith(CF)}
+                if not got or pn not in _config_fields(ctx):
+                    continue
+                ok = got == {pn}
+                pnames = {cb.locals[j + 1].get("n") for j in range(cb.argc)}
+                if not ok and not ((got - {pn}) & pnames):
+                    continue   # a parameter that merely shares its name with an unrelated knob (`tick(duration)` fed from Config::tick)
+                n += 1
+                ctx.inst(R, f"{b.id}->{t['f'].rsplit('::', 2)[-2]}::{t['f'].rsplit('::', 1)[1]}:{pn}#{nth(cnt, (t['f'], pn))}", ok, t["s"],
+                         f"parameter `{pn}` receives Config::{pn}" if ok else
+                         f"`{b.id}` passes Config::{sorted(got)} for the parameter `{pn}` of `{t['f']}`: the knob that bounds one protocol's queue is "
+                         "taken from the other one's setting (a listener refuses / panics on pending connects below tcp_capacity)")
+    ctx.floor(R, 2)
+
+
+def _config_fields(ctx):
+    a = ctx.w.adts.get("turmoil::config::Config") or {}
+    out = set()
+    for v in a.get("variants", []):
+        for f in v.get("fields", []):
+            out.add(f.get("name") or f.get("n"))
+    return out
+
+
 def run(ctx):
     from . import C03
+    r11(ctx)
+    C03.r6(ctx)   # the in-simulation and the Sim-handle spellings of partition / repair reach the same World operation (a oneway repair must not heal both directions)
     C03.r3(ctx, C03.Typestate(ctx.w, C03.CELLS))   # a request travelling (or held) on a link that is partitioned is destroyed with the partition: its connector is refused, not left hanging
     r10(ctx)
     r9(ctx)
